@@ -526,7 +526,8 @@ def _parse_transf_v33(raw, system, max_bus):
             param = {'bus1': data[0][0],
                      'bus2': data[0][1],
                      'u': data[0][11],
-                     'b': data[0][8],
+                     'g1': data[0][7],  # magnetizing admittance is connected to the winding 1 bus
+                     'b1': data[0][8],
                      'r': data[1][0],
                      'x': data[1][1],
                      'trans': transf,
@@ -589,7 +590,8 @@ def _parse_transf_v33(raw, system, max_bus):
                          'bus1': data[0][i],
                          'bus2': new_bus,
                          'u': data[0][11],
-                         'b': data[0][8],
+                         'g1': data[0][7] if i == 0 else 0.0,  # magnetizing admittance: at the winding 1 bus only
+                         'b1': data[0][8] if i == 0 else 0.0,
                          'r': r[i],
                          'x': x[i],
                          'tap': data[2+i][0],
